@@ -8,6 +8,7 @@ from ..syn import es, pat_s
 from ..terms import term_s, subterms
 from ..walk import ctx_s
 from ..facts import atom_s
+from ..terms import strip_refs
 from ..parsers import bool_fields_of_self, switch_of_cond, meta_parsers, MetaParserModel, ret_value_kind, _under
 from ..metafacts import conjuncts
 
@@ -125,6 +126,36 @@ def always_err(cx, f):
     return bool(rets) and all(isinstance(ret_value_kind(e), tuple) for e in rets) and not [e for e in fw.events if e.kind == 'tail' and getattr(e, 'is_fn_body', False) and es(e.node).startswith('Ok')]
 
 
+def level_of_fn(f):
+    return 'field' if (f.self_ty or '').startswith('Field') else 'type'
+
+
+def result_field_of(cx, f, var, depth=0):
+    """name of the field of the returned attribute record that receives local variable `var` (None if it does not flow there)"""
+    fw = cx.fw(f)
+    for ev in fw.events:
+        if ev.kind == 'struct':
+            p = ev.node.get('path')
+            ps = p.get('s') if isinstance(p, dict) and 's' in p else ''
+            if ps.endswith('Attribute'):
+                for fld in ev.node['fields']:
+                    x = fld['expr']
+                    if x['k'] == 'Path' and x['path']['s'] == var:
+                        return str(fld['member'])
+    if depth < 2:
+        # stored as the value of a map entry of the record (Into: `types.insert(target, bound / method)`)
+        for ev in fw.events:
+            if ev.kind == 'mcall' and ev.method == 'insert' and ev.args:
+                a = ev.args[-1]
+                if a['k'] == 'Path' and a['path']['s'] == var:
+                    r = strip_refs(ev.recv)
+                    if r['k'] == 'Path':
+                        rf = result_field_of(cx, f, r['path']['s'], depth + 1)
+                        if rf:
+                            return 'via:' + rf
+    return None
+
+
 def check_arm(cx, rep, f, where, g, cls, inst, trait):
     # P1 enable check (Into's parameters have no switch: always enabled once the list form is enabled)
     if g.enable is None and trait != 'Into':
@@ -162,6 +193,31 @@ def check_arm(cx, rep, f, where, g, cls, inst, trait):
             if v not in txt.replace('(', ' ').replace(')', ' ').replace(',', ' ').split() and not (val['k'] == 'Match' and es(val['expr']) == v):
                 rep.bad('PARAM', where, inst + '-effect', 'the arm assigns `%s = %s`, which does not use the converted value `%s`' % (nm, txt[:60], v), f.file, ev.line)
                 bad = True
+        # the converted value must be stored, in the shape of its class, in the variable that becomes the attribute record's field of
+        # that documented name
+        main = [(nm, val, ev) for nm, val, ev in g.sets if not nm.endswith('_span')]
+        shape_ok = False
+        import re as _re
+        for nm, val, ev in main:
+            txt = es(val).replace(' ', '')
+            if cls in (BOOL, BOOLP, ISIZE, WHERE):
+                okv = txt == v
+            elif cls == PATH:
+                okv = txt == 'Some(%s)' % v
+            elif cls == IDENT:
+                okv = _re.fullmatch(r'[A-Za-z_:]+::Custom\(%s\)' % _re.escape(v), txt) is not None
+            elif cls == EXPR:
+                okv = _re.fullmatch(r'Some\(auto_adjust_expr\(%s,(None|Some\([a-z_]+\))\)\)' % _re.escape(v), txt) is not None \
+                    and (('None' in txt) == (level_of_fn(f) == 'type'))
+            else:
+                okv = True      # IDENTBOOL: a match over the value (checked by `uses the converted value`)
+            rf_ = result_field_of(cx, f, nm)
+            if okv and (rf_ in set(g.names) or (rf_ or '').startswith('via:')):
+                shape_ok = True
+        if not main or not shape_ok:
+            rep.bad('PARAM', where, inst + '-store', 'the converted value `%s` of parameter `%s` is not stored (as %s) in the field `%s` of the attribute record: found %s' % (
+                v, g.names[0], cls, g.names[0], [(nm, es(val)[:40]) for nm, val, _ in main]), f.file, g.line)
+            bad = True
         if not bad:
             rep.ok('PARAM', '%s|%s|stores=%s' % (where, inst, ','.join(sorted(n for n, _, _ in g.sets))))
     # P5 order + result
